@@ -314,13 +314,19 @@ theorem sync_scheduler_terminates (h : Hyp cfg rank) (hG : GraphOK cfg.g cfg.res
 
 end Full
 
+/-! ## a caller-supplied cache (`get(dsk, keys, cache=…)`)
+The executable model covers it (`startStateC`, `getAsyncC`: tied to the code by the `start`/`trace` sections of the
+check); the theorems of this file are for the empty start cache, which is what these two facts connect them to. -/
+theorem startStateC_nil (cfg : Cfg) (P : Params α) : startStateC cfg P [] (some cfg.results) = startState cfg P := rfl
+theorem getAsyncC_nil (cfg : Cfg) (P : Params α) (choices : List Nat) : getAsyncC cfg P [] choices = getAsync cfg P choices := rfl
+
 /-! ## non-vacuity: a diamond `0:data, 1:task[0], 2:task[0], 3:task[1,2]`, request `[3]`, two workers -/
 section Example
 def exCfg (cs : Int) : Cfg :=
   { g := [(0, .data), (1, .task [0]), (2, .task [0]), (3, .task [1, 2])], results := [3],
     prio := fun k => k, nw := 2, cs := cs }
 def exP : Params Nat :=
-  { dataVal := fun _ => 7, apply := fun k vals => k * 100 + vals.sum, truthy := fun v => v != 0, fails := fun _ => false }
+  { dataVal := fun _ => 7, apply := fun k vals => k * 100 + vals.sum, fails := fun _ => false }
 
 def isDone (r : Run Nat) : Bool := match r.outcome with | .ok .done => true | _ => false
 
@@ -333,6 +339,29 @@ example : Hyp (exCfg 1) id := by
   | 2, hk => simp [exCfg, Map.get?] at hk; subst hk; simp at hd; subst hd; decide
   | 3, hk => simp [exCfg, Map.get?] at hk; subst hk; simp at hd; rcases hd with rfl | rfl <;> decide
   | k + 4, hk => simp [exCfg, Map.get?] at hk
+
+/-- the hypothesis `GraphOK` of the `Full` section holds for the diamond: the hypotheses of `get_async_correct` are
+jointly satisfiable (with the `Hyp` example above) -/
+example : GraphOK (exCfg 1).g (exCfg 1).results := by
+  refine ⟨?_, ?_, ?_⟩
+  · intro k deps d hk hd
+    match k, hk with
+    | 0, hk => simp [exCfg, Map.get?] at hk
+    | 1, hk => simp [exCfg, Map.get?] at hk; subst hk; simp at hd; subst hd; exact ⟨_, rfl⟩
+    | 2, hk => simp [exCfg, Map.get?] at hk; subst hk; simp at hd; subst hd; exact ⟨_, rfl⟩
+    | 3, hk => simp [exCfg, Map.get?] at hk; subst hk; simp at hd; rcases hd with rfl | rfl <;> exact ⟨_, rfl⟩
+    | k + 4, hk => simp [exCfg, Map.get?] at hk
+  · intro k deps hk
+    match k, hk with
+    | 0, hk => simp [exCfg, Map.get?] at hk
+    | 1, hk => simp [exCfg, Map.get?] at hk; subst hk; simp
+    | 2, hk => simp [exCfg, Map.get?] at hk; subst hk; simp
+    | 3, hk => simp [exCfg, Map.get?] at hk; subst hk; simp
+    | k + 4, hk => simp [exCfg, Map.get?] at hk
+  · intro r hr
+    simp [exCfg] at hr
+    subst hr
+    exact ⟨_, rfl⟩
 
 /-- the model really runs: both completion orders of the two middle tasks give the denoted value -/
 example : isDone (getAsync (exCfg 1) exP [0, 0, 0]) = true ∧ (getAsync (exCfg 1) exP [0, 0, 0]).final.cache.get? 3 = some 614 := by
